@@ -347,6 +347,17 @@ func c14Run(raw json.RawMessage) harn.Result {
 	if len(c.Src)%12 == 1 {
 		drv.WarmUp(vm) // one case in twelve on a well-used VM
 	}
+	if len(c.Src)%2 == 0 {
+		// every expression is printed in spacing variants of both parities: half of its texts run with detail rewriters
+		// installed that return their input (transparent by C17; all oracles below apply unchanged, in particular
+		// "two calls give the same text" when the cache is not what makes them equal)
+		vm.Config.CustomDetailSpanRewriteFunc = func(ctx *ds.Context, defaultDetail string, span ds.BufferSpan, isRoot bool, data []byte, off int) string {
+			return defaultDetail
+		}
+		vm.Config.CustomDetailRewriteFunc = func(ctx *ds.Context, curDetail string, span ds.BufferSpan, data []byte, off int) string {
+			return curDetail
+		}
+	}
 	if err := vm.Parse(c.Src); err != nil {
 		viol("MACHINERY:generator", "rejected: "+err.Error())
 		return res
